@@ -36,7 +36,7 @@ def run(rep, tier, seed):
     rng = random.Random(seed * 7057 + 83)
     wd = workdir("c15")
     model_check(rep, tier, os.path.join(wd, "mc"))
-    nsets = 220 if tier == "quick" else 6000
+    nsets = 700 if tier == "quick" else 6000
     # the first key must start menu completion from the main keymap; inside the menu the default menu-select binds apply
     seqs = {"menu-complete": b"\t", "menu-complete-backward": b"\x1b[Z"}
     binds = [{"km": km, "seq": seqs[a].hex(), "act": a, "macro": False} for km in ("emacs", "vi-insert") for a in seqs]
